@@ -3,11 +3,13 @@ import Mochi.Driver.Varint
 import Mochi.Driver.Topics
 import Mochi.Driver.Keepalive
 import Mochi.Driver.Ledger
+import Mochi.Driver.BufPool
 open Mochi.Driver
 
 structure DState where
   topics : TState := {}
   ledger : LState := {}
+  bufpool : BState := {}
 
 /-- input line: `op args…<TAB>implementation output`;
     answer line: `model output<TAB>spec verdict<TAB>signature`; unknown op => `bad-op` -/
@@ -29,7 +31,10 @@ def answer (st : DState) (line : String) : DState × String :=
       | none =>
         match ledgerOp st.ledger impl ws with
         | some (l', r) => ({ st with ledger := l' }, fmt r)
-        | none => (st, "bad-op")
+        | none =>
+          match bufpoolOp st.bufpool impl ws with
+          | some (b', r) => ({ st with bufpool := b' }, fmt r)
+          | none => (st, "bad-op")
 
 partial def loop (h : IO.FS.Stream) (out : IO.FS.Stream) (st : DState) : IO Unit := do
   let line ← h.getLine
